@@ -1,6 +1,7 @@
 import PeliteModel.Driver.State
 import PeliteModel.Spec.Strings
 import PeliteModel.Model.Relocs
+import PeliteModel.Spec.Relocs
 import PeliteModel.Model.CStrFmt
 /-! Driver handlers for the operation families that carry their bytes inline. -/
 namespace Pelite.Driver
@@ -8,6 +9,11 @@ open Pelite.Proto
 
 def fmtFound (base : Nat) (f : Strings.Found) : String :=
   s!"{f.start}:{f.len}:{Strings.address base f}:{if f.hasNul then 1 else 0}"
+
+/-- the specification's rendering of a run: `address = base + offset of the run` in `u32`, computed
+here, not through the model's `Strings.address` -/
+def fmtFoundSpec (base : Nat) (f : Strings.Found) : String :=
+  s!"{f.start}:{f.len}:{(base + f.start) % 4294967296}:{if f.hasNul then 1 else 0}"
 
 /-- strings <min_length> <min_length_nul> <strict 0|1> <base> <hex> -/
 def strings (a : List String) : String :=
@@ -18,13 +24,14 @@ def strings (a : List String) : String :=
     let bytes := unhex hx
     let ans := match Strings.enumAll bytes cfg (bytes.size + 2) 0 with
       | .ok fs =>
-        -- the state after exhaustion is `offset = end of the last run's terminator`; `next` again twice
-        let fused := (Strings.next bytes cfg bytes.size).isNone
+        -- the state after exhaustion is the offset the last `Some` left behind; `next` again twice
+        let off := Strings.finalOff bytes cfg (bytes.size + 2) 0
+        let fused := Strings.nexts bytes cfg off 2 == [none, none]
         s!"ok [{join (fs.map (fmtFound base))}] fused={if fused then 1 else 0}"
       | o => outStr (fun _ => "") o
     let spec := Strings.specAll bytes cfg
     let hyp := decide (1 ≤ cfg.minLen ∧ 1 ≤ cfg.minLenNul)
-    s!"{ans} ## spec=[{join (spec.map (fmtFound base))}] hyp={if hyp then 1 else 0}"
+    s!"{ans} ## spec=[{join (spec.map (fmtFoundSpec base))}] hyp={if hyp then 1 else 0}"
   | _ => "bad-op"
 
 def fmtBlock (b : Relocs.Block) : String :=
@@ -32,16 +39,90 @@ def fmtBlock (b : Relocs.Block) : String :=
 
 def fmtPairs (l : List (Nat × Nat)) : String := join (l.map fun p => s!"{p.1}:{p.2}")
 
-/-- relocs_raw <hex> -/
+/-- the closure the harness folds with: `acc.wrapping_mul(31).wrapping_add(rva as u64 * 16 + ty as u64)` -/
+def hashStep (acc rva ty : Nat) : Nat := (acc * 31 + (rva * 16 + ty)) % 18446744073709551616
+
+/-- the directory `data` placed at an address that is `align16` mod 16 -/
+def relocsAt (align16 : Nat) (data : Bytes) : String :=
+  match Relocs.parse ⟨data, align16⟩ with
+  | .ok _ =>
+    let bs := Relocs.blocks data
+    -- external iteration (block iterator, flattened) …
+    let flatIt := Relocs.flat data
+    -- … against internal iteration: `for_each` pushing to a vector, `fold` with a hashing closure
+    let flatFold := (Relocs.forEach (fun rva ty acc => (rva, ty) :: acc) data []).reverse
+    let folded := Relocs.fold hashStep 0 data
+    let expect := flatFold.foldl (fun a p => hashStep a p.1 p.2) 0
+    let b01 (b : Bool) : String := if b then "1" else "0"
+    let wf := decide (Relocs.WellFormed data)
+    s!"ok blocks=[{join (bs.map fmtBlock)}] flat=[{fmtPairs flatIt}] foreach_same={b01 (flatIt == flatFold)} fold_same={b01 (folded == expect)} ## hyp={b01 wf} spec=[{fmtPairs (Relocs.Spec.decodeDir data.toList)}]"
+  | o => outStr (fun _ => "") o
+
+/-- relocs_raw <hex>   (buffer placed 4-aligned) -/
 def relocsRaw (a : List String) : String :=
   match a with
-  | [hx] =>
+  | [hx] => relocsAt 4 (unhex hx)
+  | _ => "bad-op"
+
+/-- relocs_rawat <align16> <hex> -/
+def relocsRawAt (a : List String) : String :=
+  match a with
+  | [al, hx] => relocsAt (num al % 16) (unhex hx)
+  | _ => "bad-op"
+
+def parseHist (s : String) : List (Option Seq.Op) :=
+  (s.splitOn ",").map fun h =>
+    if h == "next" then some .next
+    else if h == "count" then some .count
+    else if h == "hint" then some .sizeHint
+    else if h == "clone" then some .clone
+    else if h.startsWith "nth:" then some (.nth (num (h.drop 4).toString))
+    else none
+
+def fmtSeqRes {α : Type} (f : α → String) (r : Seq.Res α) : String :=
+  match r with
+  | .item none => "None"
+  | .item (some b) => f b
+  | .num n => s!"{n}"
+  | .hint lo hi => s!"{lo}..{match hi with | none => "None" | some h => toString h}"
+  | .list l => s!"[{join (l.map f)}]"
+
+/-- relocs_hist <hex> <history>: a call history on the block iterator (model: `Relocs.runOps`)
+next to the same history on the plain sequence of the blocks (spec: `Seq.runSeq`) -/
+def relocsHist (a : List String) : String :=
+  match a with
+  | [hx, hist] =>
     let data := unhex hx
     match Relocs.parse ⟨data, 4⟩ with
     | .ok _ =>
-      let bs := Relocs.blocks data
-      s!"ok blocks=[{join (bs.map fmtBlock)}] flat=[{fmtPairs (Relocs.flat data)}] foreach_same=1 fold_same=1"
+      let ops := (parseHist hist).filterMap id
+      let ans := Relocs.runOps data 0 ops
+      let spec := Seq.runSeq Seq.Hint.unknown (Relocs.blocks data) ops
+      -- fused: drain, then two more calls
+      let n := (Relocs.blocks data).length
+      let tail := Relocs.runOps data 0 (ops ++ List.replicate (n + 1) .next ++ [.next, .next])
+      let fused := (tail.drop (ops.length + n + 1)) == [.item none, .item none]
+      s!"ok {join (ans.map (fmtSeqRes fmtBlock)) ";"} fused={if fused then 1 else 0} ## spec={join (spec.map (fmtSeqRes fmtBlock)) ";"}"
     | o => outStr (fun _ => "") o
+  | _ => "bad-op"
+
+/-- strings_hist <min_length> <min_length_nul> <strict 0|1> <base> <hex> <history>: a call history on
+the enumerator (model: `Strings.runOps`) next to the same calls on the list of the qualifying runs
+(spec: `Seq.runSeq` over `Strings.specAll`) -/
+def stringsHist (a : List String) : String :=
+  match a with
+  | [ml, mln, st, base, hx, hist] =>
+    let cfg : Strings.Config := ⟨num ml, num mln, st == "1"⟩
+    let base := num base
+    let bytes := unhex hx
+    let ops := (parseHist hist).filterMap id
+    let ans := Strings.runOps bytes cfg 0 ops
+    let spec := Seq.runSeq Seq.Hint.unknown (Strings.specAll bytes cfg) ops
+    let n := (Strings.itemsFrom bytes cfg 0).length
+    let tail := Strings.runOps bytes cfg 0 (ops ++ List.replicate (n + 1) .next ++ [.next, .next])
+    let fused := (tail.drop (ops.length + n + 1)) == [.item none, .item none]
+    let hyp := decide (1 ≤ cfg.minLen ∧ 1 ≤ cfg.minLenNul)
+    s!"ok {join (ans.map (fmtSeqRes (fmtFound base))) ";"} fused={if fused then 1 else 0} ## spec={join (spec.map (fmtSeqRes (fmtFoundSpec base))) ";"} hyp={if hyp then 1 else 0}"
   | _ => "bad-op"
 
 def parsePairs (s : String) : List (Nat × Nat) :=
@@ -75,7 +156,10 @@ def dispatchPure : Handler := fun _ fam a =>
   match fam with
   | "fmt_cstr" => some (fmtCStr a)
   | "strings" => some (strings a)
+  | "strings_hist" => some (stringsHist a)
   | "relocs_raw" => some (relocsRaw a)
+  | "relocs_rawat" => some (relocsRawAt a)
+  | "relocs_hist" => some (relocsHist a)
   | "relocs_build" => some (relocsBuild a)
   | _ => none
 
